@@ -85,6 +85,8 @@ pub fn cause_op2(g: &mut G, id: Id, k: KindTag) -> Option<Op> {
             3 => Op::TrReplaceLazy(id, repl_spec(g)),
             4 => Op::TrMap(id),
             5 if g.p.name == "C18" || g.p.scripted_faults => Op::TrChildFail(id, g.rng.range(1, 2) as u8),
+            6 if g.p.name == "C18" || g.p.scripted_faults => Op::TrReplaceFailRetry(id, repl_spec(g)),
+            7 => Op::TrAssign(id, repl_spec(g), g.rng.chance(1, 4)),
             _ => Op::PeerWrite(id, 1),
         }),
         _ => None,
@@ -109,7 +111,7 @@ pub fn adapter_op(g: &mut G) -> Option<Op> {
                 fd = FdSpec::RegularFile;
             }
             g.adapters.push(id);
-            Some(Op::AdaptIo { id, fd, borrowed: false, blocking: g.rng.chance(1, 2) })
+            Some(Op::AdaptIo { id, fd, borrowed: false, blocking: g.rng.chance(1, 2), flushy: g.rng.chance(1, 3) })
         }
         2..=5 => {
             let ex: Vec<Id> = g.srcs.iter().filter(|s| s.1 == KindTag::Executor).map(|s| s.0).collect();
@@ -124,7 +126,7 @@ pub fn adapter_op(g: &mut G) -> Option<Op> {
             g.tasks.push(task);
             let total = *g.rng.pick(&[1u32, 7, 64, 300, 5000, 20000]);
             let chunk = *g.rng.pick(&[1u32, 3, 16, 100, 4096, 9000]);
-            Some(Op::AdapterTask { exec, task, adapter, kind: g.rng.below(8) as u8, total, chunk, then: *g.rng.pick(&[0u8, 0, 1, 2]) })
+            Some(Op::AdapterTask { exec, task, adapter, kind: g.rng.below(9) as u8, total, chunk, then: *g.rng.pick(&[0u8, 0, 1, 2]) })
         }
         6..=8 => Some(Op::AdapterPeerWrite(*g.rng.pick(&g.adapters.clone()), *g.rng.pick(&[1u32, 5, 64, 1000, 6000, 30000]))),
         9 | 10 => Some(Op::AdapterPeerRead(*g.rng.pick(&g.adapters.clone()), *g.rng.pick(&[1u32, 64, 4096, 70000]))),
